@@ -1,7 +1,63 @@
-(* C03 - placeholder *)
-From Coq Require Import List ZArith QArith Qcanon.
-From MsmV Require Import Lib.Result Lib.QMat Model.HS.
+(* C03 - Hummer-Szabo lumped model: rows normalised, aggregated equilibrium
+   stationary.  Algebra under run-time certified inverses (the executable formula
+   returns a matrix only after checking K Z = Z K = I and N M = M N = I exactly).
+   Statements only; proofs in Proofs/HSFacts.v on Proofs/QMatFacts.v.
+   A second, field-generic formalisation is in Abstract/HS_mathcomp.v. *)
+From Coq Require Import List ZArith Arith Bool QArith Qcanon.
+From MsmV Require Import Lib.Result Lib.PyList Lib.QMat Model.Ergodic Model.Peq Model.HS Proofs.QMatFacts Proofs.HSFacts.
 Import ListNotations.
+Local Open Scope nat_scope.
+
+Theorem inverse_certificate : forall A X, inverse_cert A = Some X ->
+  mmul A X = identity (length A) /\ mmul X A = identity (length A).
+Proof. exact inverse_cert_spec. Qed.
+Print Assumptions inverse_certificate.
+
+Theorem stationary_certificate : forall T v, stationary T = Some v ->
+  vmul v T = v /\ qsum v = 1%Qc /\ (forall x, In x v -> (0 <= x)%Qc).
+Proof. exact stationary_spec. Qed.
+Print Assumptions stationary_certificate.
+
+(* whenever the executable projection returns a matrix for positive=False, its rows
+   sum to one and the per-macrostate sums of the equilibrium populations are stationary *)
+Theorem hs_rowsum_stationary : forall n m T pi A R,
+  0 < n -> 0 < m -> wf n n T -> length pi = n -> wf n m A ->
+  rows_sum_one T -> vmul pi T = pi -> qsum pi = 1%Qc -> rows_sum_one A ->
+  hs_formula T pi A false = Some R ->
+  rows_sum_one R /\ vmul (vmul pi A) R = vmul pi A.
+Proof. exact hs_formula_sound. Qed.
+Print Assumptions hs_rowsum_stationary.
+
+(* positive=True: no negative entry; rows sum to one (or are all zero) *)
+Theorem hs_positive : forall T pi A R, hs_formula T pi A true = Some R ->
+  (forall r x, In r R -> In x r -> (0 <= x)%Qc) /\
+  (forall r, In r R -> qsum r = 1%Qc \/ qsum r = 0%Qc).
+Proof. exact hs_formula_positive. Qed.
+Print Assumptions hs_positive.
+
+(* the aggregation matrix of an assignment has exactly one 1 per row (A 1 = 1) *)
+Theorem aggregation_is_partition : forall nmacro aidx, (forall a, In a aidx -> a < nmacro) ->
+  wf (length aidx) nmacro (aggregation nmacro aidx) /\ rows_sum_one (aggregation nmacro aidx).
+Proof. exact aggregation_rows. Qed.
+Print Assumptions aggregation_is_partition.
+
+(* a non-ergodic micro model is refused (TypeError) before projecting *)
+Theorem hs_refuses_nonergodic : forall l lag,
+  is_ergodic atol8 (fst (Model.Msm.emm (lu_micro l) lag)) = false -> lumped_emm l lag = Err TypeError.
+Proof. intros l lag H. unfold lumped_emm. now rewrite H. Qed.
+Print Assumptions hs_refuses_nonergodic.
+
+(* returned labels are the macrostate list of the object (ascending distinct macro labels,
+   see lumped_views_thm in C02) *)
+Theorem hs_labels : forall l lag TA st, lumped_emm l lag = Ok (Some (TA, st)) -> st = lu_macrostates l.
+Proof.
+  intros l lag TA st. unfold lumped_emm. destruct (negb _); [discriminate|].
+  destruct (assign_idx l); cbn [bind]; [|discriminate].
+  destruct (stationary _); [|discriminate]. destruct (hs_formula _ _ _ _); [|discriminate].
+  intros H. injection H as _ <-. reflexivity.
+Qed.
+Print Assumptions hs_labels.
+
 Example hs_example :
   match lumped_estimate [[1;1;1;2;2;1;2;2;1;1;2;1]%Z] [[0;1;0;3;2;0;3;2;1;0;2;1]%Z] false 1 with
   | Ok (Some (TA, st)) => st = [1; 2]%Z /\ map (map (fun q : Qc => this q)) TA = [[379 # 904; 525 # 904]; [735 # 904; 169 # 904]]%Q
